@@ -13,8 +13,8 @@ ALPHA = [0x00, 0x01, 0x02, 0x1f, 0x20, 0xde, 0xdf, 0xe0, 0xe1, 0xfe, 0xff]
 rule = ("scripts = 'dec new <codec> <align>:<hex> ...' (guarded segments at the given address offset mod 16), optional "
         "'dec state' head room, then 'dec run' repeated (resume after every return code), 'dec append'/'dec seg' (more input), "
         "'dec peek', 'dec size'.  Stream 1 (exhaustive) = every byte string over {00,01,02,1f,20,de,df,e0,e1,fe,ff} up to "
-        "length 3 (quick) / 4 (thorough) x 4 COBS decoders x {one segment, every 2-segmentation as two segments, every "
-        "2-step arrival}; quick adds a seeded sample of the length-4 strings; stream 2 = valid frames of structured "
+        "length 4 x 4 COBS decoders in one segment, and up to length 3 (quick) / 4 (thorough) additionally in every "
+        "2-segmentation as two segments and as 2-step arrival; plus a seeded sample of longer strings (all three forms); stream 2 = valid frames of structured "
         "messages (block-boundary lengths) mutated (byte flip, zero inserted, truncation, doubled delimiter) under random "
         "segmentations/alignments/head room, command text included; stream 3 = random bytes with peek/size calls in between.  "
         "Non-trivial = a script in which a call returned an error, or a message was delivered after an earlier call had "
@@ -156,10 +156,14 @@ def scripts(tier, seed, scale=1):
     strs = strings(top)
     r0 = gen.rng(id, tier, seed, "exhaustive")
     if tier == "quick":
-        l4 = [[r0.choice(ALPHA) for _ in range(4)] for _ in range(600 * scale)]
+        l4 = [[r0.choice(ALPHA) for _ in range(r0.choice([4, 5]))] for _ in range(400 * scale)]
+        single = [x for x in strings(4) if len(x) == 4]
     else:
-        l4 = [[r0.choice(ALPHA) for _ in range(5)] for _ in range(6000 * scale)]
+        l4 = [[r0.choice(ALPHA) for _ in range(r0.choice([5, 6]))] for _ in range(6000 * scale)]
+        single = []
     for codec in DECODERS:
+        for k, x in enumerate(single):
+            out.append(("ex:%s:%s" % (codec, gen.hexs(x)), one_string(codec, x, "one", align=k % 16)))
         for k, x in enumerate(strs + l4):
             a = k % 16
             out.append(("ex:%s:%s" % (codec, gen.hexs(x)), one_string(codec, x, "one", align=a)))
@@ -220,6 +224,7 @@ def nontrivial(script, c_lines):
 
 
 def tally(chk, script, c_lines):
+    chk.exhaustive = True   # stream 1 enumerates its stated scope completely
     d = chk.__dict__.setdefault("distribution", {})
     codec = script[0].split()[2]
     d[codec] = d.get(codec, 0) + 1
